@@ -380,8 +380,102 @@ def r17h(run):
                             "ForwardRef('B') not evaluated, while the same class written after B works", node=c)
 
 
+def r17i(run):
+    """fields inherited from a base class are pending in the *base* parser's table: a class parser that copies the fields
+    of its bases must also get those references resolved (by resolving the base parsers before itself, or by taking over
+    their pending entries)"""
+    C = run.repo.cls("utype.parser.cls", "ClassParser")
+    g = C.methods.get("generate_from_bases")
+    if g is None:
+        raise AnalysisError("ClassParser.generate_from_bases not found")
+    copies = [c for c in walk_shallow(g.node) if isinstance(c, ast.Call) and call_attr(c) == "update" and c.args
+              and isinstance(c.args[0], ast.Attribute) and c.args[0].attr == "fields"]
+    run.floor("R17i", "field tables copied from base parsers", len(copies), 1)
+    takes_over = any(isinstance(c, ast.Call) and call_attr(c) in ("update", "setdefault") and c.args
+                     and any(isinstance(x, ast.Attribute) and x.attr == "forward_refs" for x in ast.walk(c.args[0]))
+                     for c in walk_shallow(g.node))
+    r = C.methods.get("resolve_forward_refs")
+    chained = False
+    if r is not None:
+        ra = analysis(r)
+        base_calls = [(n, c) for n, c in ra.all_calls() if call_attr(c) == "resolve_forward_refs"
+                      and unparse(c.func.value) not in ("self", "super()")]
+        sup = [(n, c) for n, c in ra.all_calls() if call_attr(c) == "resolve_forward_refs" and unparse(c.func.value) == "super()"]
+        over_bases = any(any(b.kind == "branch" and b.is_for and b.polarity and ("__bases__" in unparse(b.stmt.iter)
+                                                                                  or "__mro__" in unparse(b.stmt.iter))
+                             for b in ra.cfg.dominators()[n]) for n, c in base_calls)
+        # no guard that skips a base whose own table is empty: its bases may still hold pending entries
+        unguarded = all(not any("forward_refs" in unparse(a) for a, p in ra.facts.atoms_at(n)) for n, c in base_calls)
+        chained = bool(base_calls) and bool(sup) and over_bases and unguarded
+    run.check("R17i", r if r is not None else g, "inherited fields get the late references of their declaring class resolved",
+              takes_over or chained, construct="pending references of base classes never resolved for a subclass",
+              message="ClassParser copies the fields of its base parsers (generate_from_bases) but neither takes over their "
+                      "pending forward references nor resolves every base parser (through all levels) before itself",
+              necessity="class Base(Schema): later: Optional['Later']; class Sub(Base): ... ; using Sub before Base fails "
+                        "with ForwardRef('Later') not evaluated - the same declaration works when Base is used first")
+
+
+def r17j(run):
+    """a 'something was resolved' flag that is tested after a loop must accumulate over the iterations: a flag that each
+    iteration overwrites holds the verdict of the last element only"""
+    total = 0
+    for modname in ("utype.parser.rule", "utype.parser.base", "utype.parser.field", "utype.parser.func", "utype.parser.cls"):
+        for f in run.repo.module(modname).functions.values():
+            fa = analysis(f)
+            for lp in [n for n in fa.cfg.nodes if n.kind == "iter"]:
+                entry = [s_ for s_, k in lp.succ if s_.kind == "branch" and s_.polarity]
+                if not entry:
+                    continue
+                body = fa.cfg.reach_from_succ(entry[0], kinds=(N,), avoid=[lp]) | {entry[0]}
+                for n in body:
+                    if n.kind != "stmt" or not isinstance(n.ast, ast.Assign):
+                        continue
+                    for tg in n.ast.targets:
+                        for x in ast.walk(tg):
+                            if not (isinstance(x, ast.Name) and isinstance(x.ctx, ast.Store)):
+                                continue
+                            v = x.id
+                            inits = [d for d in fa.cfg.nodes if d.kind == "stmt" and isinstance(d.ast, ast.Assign)
+                                     and len(d.ast.targets) == 1 and isinstance(d.ast.targets[0], ast.Name)
+                                     and d.ast.targets[0].id == v and isinstance(d.ast.value, ast.Constant)
+                                     and isinstance(d.ast.value.value, bool) and d not in body]
+                            if not inits:
+                                continue
+                            total += 1
+                            # accumulating forms: `flag = True` (a constant), or an expression that reads the flag itself
+                            acc = isinstance(n.ast.value, ast.Constant) or v in names_in(n.ast.value)
+                            used_after = any(m not in body and m.ast is not None and v in names_in(m.ast)
+                                             and fa.cfg.can_reach(lp, m) and m not in inits for m in fa.cfg.nodes
+                                             if m.kind in ("test", "stmt"))
+                            run.check("R17j", f, f"the loop flag `{v}` accumulates over the iterations", acc or not used_after,
+                                      construct=f"loop flag {v} overwritten by every iteration",
+                                      message=f"{f.qualname}: `{norm_stmt(n.ast)[:70]}` overwrites `{v}` in every iteration of the "
+                                              f"loop; the test after the loop sees the last element's verdict only",
+                                      necessity="Optional['X'] has the arguments (X, None): the last one resolves nothing, so "
+                                                "the resolved X is never written back into the type - it only works while the "
+                                                "reference object stays evaluated (not for classes declared in a function)",
+                                      node=n.ast)
+    run.floor("R17j", "boolean flags assigned inside loops of the parser", total, 5)
+
+
+def r17k(run):
+    """re-resolution reaches every place a reference can sit in a constrained type: its arguments and its (combined) origin"""
+    f = run.repo.func("utype.parser.rule", "Rule.resolve_forward_refs")
+    fa = analysis(f)
+    origin = [(n, c) for n, c in fa.all_calls() if call_attr(c) == "resolve_forward_refs" and "__origin__" in unparse(c.func.value)]
+    early = [n for n in fa.cfg.nodes if n.kind == "stmt" and isinstance(n.ast, ast.Return) and fa.cfg.is_live(n)
+             and not any(fa.cfg.can_reach(o, n) or fa.cfg.dominates(o, n) for o, _ in origin)]
+    run.check("R17k", f, "a constrained type re-resolves the references inside its combined origin on every path",
+              bool(origin) and not early, construct="references in a combined origin are not re-resolved",
+              message="Rule.resolve_forward_refs " + ("never descends into cls.__origin__" if not origin else
+                                                      "returns before descending into cls.__origin__"
+                                                      + (f" (`{norm_stmt(early[0].ast)}`)" if early else "")),
+              necessity="a field annotated Optional['X'] is Rule[AnyOf(ForwardRef('X'), None)]: the reference sits in the "
+                        "origin, the rule has no arguments - it is never replaced")
+
+
 def check(run):
-    run.rules_run += ["R17a", "R17b", "R17c", "R17d", "R17e", "R17f", "R17g", "R17h"]
+    run.rules_run += ["R17a", "R17b", "R17c", "R17d", "R17e", "R17f", "R17g", "R17h", "R17i", "R17j", "R17k"]
     run.explain("C17 (resolution-before-use; equivalence with the direct declaration is value-level and undecided): "
                 "(R17a) resolve_forward_refs unconditionally dominates parse_data / get_params at all five entries; "
                 "(R17b) after a resolution every field (input and output type), the addition type, *args and return "
@@ -397,6 +491,9 @@ def check(run):
     r17f(run)
     r17g(run)
     r17h(run)
+    r17i(run)
+    r17j(run)
+    r17k(run)
     # shared with C16: a class is looked up in the converter registry while it is still being set up (self-reference);
     # the lookup after set-up only recovers if the memo holds positive answers only
     from . import c16
